@@ -343,7 +343,10 @@ def find_beacon_config_bytes(fh: BinaryIO, xorkey: bytes) -> Iterator[bytes]:
 
     guardrail_areas = {}
     for pos in iter_find_needle(fh, xorred_config_block, start_offset=0):
-        if has_guardrail_config(fh, pos, guardrail_areas):
+        # (the header can also begin in the last bytes in front of such an area)
+        if has_guardrail_config(fh, pos, guardrail_areas) or has_guardrail_config(
+            fh, pos + len(xorred_config_block) - 1, guardrail_areas
+        ):
             # Guardrails: the area is masked with an environmental key as well, these bytes only look like the start
             # of a config block under `xorkey`. Left to `iter_guardrail_configs_with_beacon`.
             logger.debug(f"Ignoring CONFIG_HEADER at {pos} using xorkey: 0x{xorkey.hex()}, Guardrails protected")
